@@ -65,7 +65,11 @@ func runC01MixedKeys(c *Ctx, w *ATWorld) {
 			case allOK && final != before:
 				class = "rollbacked_but_not_restored"
 			}
-			c.Out.Case(cid, "C01", "skip", "skip")
+			obs := "runs"
+			if execErr != nil && mid == before {
+				obs = "refused"
+			}
+			c.Out.Case(cid, "C01", "route insert "+map[string]string{"generated-first": "- k", "given-first": "k -", "given-between": "- k -"}[order], obs)
 			c.Out.Oracle(cid, class == "", class, fmt.Sprintf("%s | err=%v before=%s mid=%s final=%s rollback-ok=%v crash=%s", q, execErr, before, mid, final, allOK, crash))
 			c.Out.Tag(cid, "nontrivial=1")
 			c.Out.Count("mixed-keys." + order)
